@@ -35,7 +35,47 @@ ALWAYS_SCENARIOS = {
 }
 
 
+def quick_sweeps(prop):
+    """generic sweeps opted into the quick tier (second line `//@quick`): oracle written from the property text, no wall-clock dependence"""
+    import glob
+    out = []
+    for f in sorted(glob.glob(os.path.join(ROOT, 'witness', prop, '*.rs'))):
+        head = open(f).read(400).split('\n')
+        if len(head) > 1 and head[1].startswith('//@quick'):
+            rel = os.path.relpath(f, ROOT)
+            if rel not in [p for p, _ in ALWAYS_SCENARIOS.get(prop, [])]:
+                out.append((rel, 'generic sweep %s (see its header for the space explored)' % rel))
+    return out
+
+
 def run_scenarios(prop):
+    import witness
+    res = []
+    todo = ALWAYS_SCENARIOS.get(prop, []) + quick_sweeps(prop)
+    if not todo:
+        return res
+    # one cargo invocation for all of them
+    w = witness.run([prop], only=[p for p, _ in todo])
+    for path, what in todo:
+        failed = [f for f in w.get('failed', []) if f.get('scenario') == path]
+        entry = {'name': 'scenario:' + path, 'what': what, 'bounded': True, 'wall_s': w.get('wall_s'), 'backends': ['cargo-test (bounded)'],
+                 'obligations': 0, 'discharged': 0, 'samples': ['bounded scenario sweep %s: %s' % (path, what)],
+                 'trusted': ['bounded: covers only the stated input space']}
+        if failed:
+            f0 = failed[0]
+            entry['verdict'] = 'failed'
+            entry['violations'] = [{'unit': 'scenario', 'fn': path, 'key': 'bounded:' + f0['test'], 'kind': 'bounded-scenario', 'label': None, 'props': [prop],
+                                    'message': 'bounded scenario sweep fails on the real code', 'spans': [], 'src': None, 'rendered': f0['output']}]
+        elif w.get('inconclusive') or not w.get('ran'):
+            entry['verdict'] = 'inconclusive'
+            entry['undecided'] = ['scenario %s did not run: %s' % (path, w.get('inconclusive'))]
+        else:
+            entry['verdict'] = 'passed (bounded)'
+        res.append(entry)
+    return res
+
+
+def run_scenarios_old(prop):
     import witness
     res = []
     for path, what in ALWAYS_SCENARIOS.get(prop, []):
